@@ -63,7 +63,8 @@ impl Ctx {
                 m.insert(*k, n);
             }
         }
-        let high = m.values().any(|c| !c.fits_signed(CONST_BYTES * 8));
+        let cbits = self.cfg.layout.const_bits;
+        let high = m.values().any(|c| !c.fits_signed(cbits));
         let r#gen = if high {
             match (ea.r#gen, eb.r#gen) {
                 (Some(x), Some(y)) => {
@@ -86,9 +87,9 @@ impl Ctx {
         if let Some(p) = self.slot_gens[g].iter().position(|x| *x == s) {
             return p;
         }
-        if self.slot_gens[g].len() >= SLOTS {
+        if self.slot_gens[g].len() >= self.cfg.layout.max_slots {
             self.fail("positional encoding", "out of slots in one multiscalar generation".into(), true);
-            return SLOTS - 1;
+            return self.cfg.layout.max_slots - 1;
         }
         self.slot_gens[g].push(s);
         self.slot_gens[g].len() - 1
@@ -103,7 +104,7 @@ impl Ctx {
         let mut acc = 0u32;
         for (base, coef) in entry.terms.iter() {
             // low part: balanced signed constant of CONST_BYTES*8 bits
-            let (lo, mut rest) = coef.split_low_signed(CONST_BYTES * 8);
+            let (lo, mut rest) = coef.split_low_signed(self.cfg.layout.const_bits);
             let (neg, mag) = lo.to_sign_mag();
             let mut cterm = {
                 let m = self.m.reduce(&mag);
@@ -112,7 +113,7 @@ impl Ctx {
             };
             let mut k = 0usize;
             while !rest.is_zero() {
-                let (dig, r2) = rest.split_low_signed(8);
+                let (dig, r2) = rest.split_low_signed(self.cfg.layout.digit_bits);
                 rest = r2;
                 if !dig.is_zero() {
                     if k >= slots.len() {
@@ -126,7 +127,7 @@ impl Ctx {
                     cterm = self.add(cterm, t);
                 }
                 k += 1;
-                if k > SLOTS + 1 {
+                if k > self.cfg.layout.max_slots + 1 {
                     self.fail("positional decoding", "coefficient wider than the slot area".into(), true);
                     break;
                 }
@@ -137,7 +138,7 @@ impl Ctx {
         self.elems[e as usize].dlog = Some(acc);
         // a decoded positional result ends the current slot generation
         if let Some(g) = entry.r#gen {
-            if g == self.slot_gens.len() - 1 {
+            if g == self.slot_gens.len() - 1 && !self.cfg.layout.global_slots {
                 self.slot_gens.push(vec![]);
                 self.stats.naf_calls += 1;
             }
